@@ -45,7 +45,7 @@ Section Fit.
   Theorem node_fits_of_member p m : In (node_class cv p m) all -> node_fits (reduce_classes all) p m = true.
   Proof.
     intros Hin. destruct (reduce_classes_spec all all_nodup _ Hin) as [r [Fr [NDr [Mr [Cov [Opt _]]]]]].
-    unfold node_class in *. destruct (build_class_spec cv m p) as [mixed [nilb [attrs [E [A Mx]]]]]. rewrite E in *.
+    unfold node_class in *. destruct (build_class_spec cv m p) as [mixed [nilb [attrs [E [A [Mx _]]]]]]. rewrite E in *.
     cbn [c_qname c_attrs c_mixed] in *. unfold node_fits. rewrite Fr.
     set (cns := class_ns p m) in *. set (parts := node_part_keys cns m) in *.
     assert (Kattrs : forall k, In k (keys attrs) <-> In k (keys parts)).
@@ -92,18 +92,26 @@ Proof.
   unfold map_tree in Hx. eapply flatten_from. exact Hx.
 Qed.
 
-Theorem samples_fit : forall cv (S : list tree), forallb (tree_fits (classes_of_xml cv S)) S = true.
+Lemma for_all_class_nodes cv (S : list tree) (f : option str -> tree -> bool) :
+  (forall p m, In (node_class cv p m) (concat (map (map_tree cv) S)) -> f p m = true) ->
+  forall t, In t S -> tree_all f (root_ns t) t = true.
 Proof.
-  intros cv S. apply forallb_forall. intros t Ht. unfold tree_fits, classes_of_xml.
-  set (all := concat (map (map_tree cv) S)).
+  intros Hf t Ht. set (all := concat (map (map_tree cv) S)) in *.
   apply tree_all_Forall_nodes.
   assert (Hn : Forall_nodes (fun p m => In (node_class cv p m) all) (root_ns t) t).
   { apply flatten_nodes. intros x Hx. unfold all. apply in_concat. exists (map_tree cv t). split; [apply in_map; exact Ht|exact Hx]. }
   clear Ht. revert Hn. generalize (root_ns t). revert t.
   induction t as [qn atts text tail kids IH] using tree_ind'. intros p [H0 Hk]. cbn [Forall_nodes]. split.
-  - apply (node_fits_of_member cv all (all_of_samples cv S)). exact H0.
+  - apply Hf. exact H0.
   - cbn [t_kids] in *. set (cns := class_ns p (T qn atts text tail kids)) in *. clearbody cns. clear H0.
     induction kids as [|k r IHr]; [exact I|]. inversion IH; subst. destruct Hk as [Hk1 Hk2]. split.
     + destruct (named k && has_content k); [|exact I]. apply H1. exact Hk1.
     + apply IHr; assumption.
+Qed.
+
+Theorem samples_fit : forall cv (S : list tree), forallb (tree_fits (classes_of_xml cv S)) S = true.
+Proof.
+  intros cv S. apply forallb_forall. intros t Ht. unfold tree_fits, classes_of_xml.
+  apply (for_all_class_nodes cv S); [|exact Ht].
+  apply (node_fits_of_member cv _ (all_of_samples cv S)).
 Qed.
